@@ -40,6 +40,18 @@ fn unit(rng: &mut Rng) -> f64 {
 }
 
 pub fn random_aff(rng: &mut Rng, small_scales: bool) -> Aff {
+    // one session in four is placed FAR FROM THE ORIGIN: a rigid motion plus uniform scale whose translation is 2^20..2^26
+    // (f32: 2^8..2^11) times the size of a lattice cell - coordinates whose products are inexact although
+    // the features are large against the unit in the last place (the margin of admissible witnesses, 2^-29 / 2^-15 of
+    // the coordinate magnitude, is then a quarter / an eighth of a cell)
+    if rng.chance(1, 4) {
+        let e = if small_scales { rng.range(-6, 6) } else { rng.range(-40, 40) };
+        let s = 2f64.powi(e as i32) * (1.0 + 0.5 * unit(rng).abs());
+        let th = unit(rng) * std::f64::consts::PI;
+        let k = if small_scales { rng.range(8, 11) } else { rng.range(20, 26) };
+        let t = 2f64.powi(k as i32) * s;
+        return Aff { a: s * th.cos(), b: -s * th.sin(), c: s * th.sin(), d: s * th.cos(), tx: t * (0.5 + 0.5 * unit(rng).abs()) * if rng.chance(1, 2) { 1.0 } else { -1.0 }, ty: t * unit(rng) };
+    }
     loop {
         let e = if small_scales { rng.range(-6, 6) } else { rng.range(-40, 40) };
         let s = 2f64.powi(e as i32) * (1.0 + 0.5 * unit(rng).abs());
@@ -183,7 +195,8 @@ fn witnesses(l: &Lat, m: &Aff, rng: &mut Rng, cap: usize) -> Vec<(f64, f64)> {
                 continue;
             }
             let (x0, y0, c) = ((l.origin.0 + l.cell * x) as f64, (l.origin.1 + l.cell * y) as f64, l.cell as f64);
-            for (fa, fb) in [(0.5, 0.15), (0.85, 0.5), (0.5, 0.85), (0.15, 0.5)] {
+            // the incentres of the four triangles cut by both diagonals: 0.207 cells away from all three sides
+            for (fa, fb) in [(0.5, 0.2071), (0.7929, 0.5), (0.5, 0.7929), (0.2071, 0.5)] {
                 w.push(m.at(x0 + c * fa, y0 + c * fb));
             }
         }
@@ -301,9 +314,66 @@ fn star_session<F: Fl>(sid: u64, fam: &str, seed: u64, kind: &str) -> Sess {
     fs.s
 }
 
+/// family "fneedle": two long thin rectangles (length 2^7..2^13, width about 1) in an arbitrary
+/// direction, the second turned against the first by a tiny angle about (almost) the common centre so
+/// that they form a flat X: the four long edges cross pairwise at SHALLOW angles (down to 1e-4 rad) in
+/// general position - the badly conditioned crossings. The ends separate by 2..6 widths, so no vertex
+/// of one is near an edge of the other. Witness candidates lie along the common axis. (A FIXED batch.)
+fn needle_session<F: Fl>(sid: u64, fam: &str, seed: u64, kind: &str) -> Sess {
+    let mut rng = Rng::new(seed);
+    let e = if F::NAME == "f32" { rng.range(7, 10) } else { rng.range(7, 13) };
+    let len = 2f64.powi(e as i32) * (1.0 + 0.9 * unit(&mut rng).abs());
+    let th = unit(&mut rng) * std::f64::consts::PI;
+    let spread = 2.0 + 4.0 * unit(&mut rng).abs(); // how far the ends separate, in widths
+    let dl = spread / (len / 2.0) * if rng.chance(1, 2) { 1.0 } else { -1.0 };
+    let sc = 2f64.powi(rng.range(-3, 3) as i32) * (1.0 + 0.5 * unit(&mut rng).abs());
+    let (ox, oy) = (unit(&mut rng) * 40.0 * sc, unit(&mut rng) * 40.0 * sc);
+    let rect = |rng: &mut Rng, ang: f64, cx: f64, cy: f64, w: f64| -> MultiPolygon<F> {
+        let (c, s) = (ang.cos(), ang.sin());
+        let h = len / 2.0;
+        let mut cs: Vec<Coord<F>> = [(-h, -w), (h, -w), (h, w), (-h, w)]
+            .iter()
+            .map(|(x, y)| Coord { x: F::from_f64(sc * (cx + c * x - s * y) + ox), y: F::from_f64(sc * (cy + s * x + c * y) + oy) })
+            .collect();
+        let k = rng.below(4) as usize;
+        cs.rotate_left(k);
+        let f = cs[0];
+        cs.push(f);
+        MultiPolygon(vec![Polygon::new(LineString(cs), vec![])])
+    };
+    let wa = 0.4 + 0.3 * unit(&mut rng).abs();
+    let wb = 0.4 + 0.3 * unit(&mut rng).abs();
+    let a = rect(&mut rng, th, 0.0, 0.0, wa);
+    let (dx, dy) = (unit(&mut rng) * 0.1, unit(&mut rng) * 0.1);
+    let b = rect(&mut rng, th + dl, dx, dy, wb);
+    let mx = max_abs(&a).max(max_abs(&b)).max(f64::MIN_POSITIVE);
+    let mexp = mx.log2().floor() as i32 + 1;
+    let (c, s) = (th.cos(), th.sin());
+    let ws: Vec<(f64, f64)> = (0..48)
+        .map(|_| {
+            let (t, u) = (unit(&mut rng) * len * 0.55, unit(&mut rng) * (spread + 1.5));
+            (sc * (c * t - s * u) + ox, sc * (s * t + c * u) + oy)
+        })
+        .collect();
+    let wits = format!("[{}]", ws.iter().map(|(x, y)| format!("[\"{:016x}\",\"{:016x}\"]", x.to_bits(), y.to_bits())).collect::<Vec<_>>().join(","));
+    let mut fs = FSess::<F> { s: Sess::new(sid, kind, fam, seed), vals: Default::default(), wits, mexp, n: 0 };
+    fs.def("A", a);
+    fs.def("B", b);
+    for (op, _) in run::OPS {
+        let (px, py) = (*rng.pick(&['p', 'm']), *rng.pick(&['p', 'm']));
+        fs.call(op, "A", "B", px, py);
+    }
+    let op = *rng.pick(&["int", "union", "xor", "diff"]);
+    fs.call(op, "B", "A", 'm', 'm');
+    fs.s
+}
+
 fn session<F: Fl>(sid: u64, fam: &str, seed: u64, o: &Opts, shape: &str, kind: &str) -> Sess {
     if fam == "fstar" {
         return star_session::<F>(sid, fam, seed, kind);
+    }
+    if fam == "fneedle" {
+        return needle_session::<F>(sid, fam, seed, kind);
     }
     let mut rng = Rng::new(seed);
     let base = fam.strip_prefix("rot-").expect("float families are named rot-<lattice family>");
